@@ -33,6 +33,29 @@ func init() {
 				}
 			}
 		}
+		if d := os.Getenv("DBGDESC"); d != "" {
+			for _, cs := range p.callSites(f, strings.Split(d, ",")...) {
+				c0 := cs.Common()
+				var args []ssa.Value
+				if c0.IsInvoke() {
+					args = append(args, c0.Value)
+				}
+				args = append(args, c0.Args...)
+				fmt.Printf("  %s %s\n", p.pos(cs.Pos()), p.staticCalleeName(c0))
+				for i, a := range args {
+					fmt.Printf("      arg%d = %s\n", i, descVal(a))
+				}
+			}
+			for _, b := range f.Blocks {
+				for _, in := range b.Instrs {
+					if r, ok := in.(*ssa.Return); ok {
+						for i, v := range r.Results {
+							fmt.Printf("  return[%d] = %s\n", i, descVal(v))
+						}
+					}
+				}
+			}
+		}
 		var as []Assume
 		if len(parts) > 3 && parts[3] != "" {
 			v := latFalse
